@@ -284,37 +284,6 @@ Definition fname_case_ok (f : xqname) : bool :=
   | _ => true
   end.
 
-Fixpoint rung1 (a : xexpr) : bool :=
-  match a with
-  | XBin _ a b => rung1 a && rung1 b
-  | XNeg a => rung1 a
-  | XLit _ | XNum _ | XVar _ => true
-  | XCall f args => fname_case_ok f && forallb rung1 args
-  | XParen a => rung1 a
-  | _ => false
-  end.
-
-Fixpoint size (a : xexpr) : nat :=
-  match a with
-  | XBin _ a b => S (size a + size b)
-  | XNeg a => S (size a)
-  | XCall _ args => S (list_sum (map size args))
-  | XParen a => S (size a)
-  | XFilter p preds => S (size p + list_sum (map size preds))
-  | XPath st first rest =>
-      let ssz := fun s : xstep => match s with XStep _ _ preds => S (list_sum (map size preds)) | _ => 1%nat end in
-      S (match st with SFrom f _ => size f | _ => 0%nat end + ssz first
-         + list_sum (map (fun x : sep * xstep => let (_, s) := x in ssz s) rest))
-  | _ => 1%nat
-  end.
-
-Lemma size_in (x : xexpr) l : In x l -> (size x <= list_sum (map size l))%nat.
-Proof.
-  induction l as [|y l IH]; [intros []|].
-  change (list_sum (map size (y :: l))) with (size y + list_sum (map size l))%nat.
-  cbn [In]. intros [->|H]; [lia|]. specialize (IH H). lia.
-Qed.
-
 (** ** how the spellings of this rung start *)
 Lemma digit_facts c : XPathSyntax.is_digit c = true -> is_ws c = false /\ c <> 61 /\ c <> 45 /\ c <> 36 /\ c <> 40 /\ c <> 34 /\ c <> 39.
 Proof.
@@ -352,30 +321,6 @@ Proof.
   - apply andb_true_iff in H. destruct H as [Hp _]. destruct (ncname_split p Hp) as (x & t & -> & Hx & _).
     exists x, (t ++ [58] ++ l). auto.
   - destruct (ncname_split l H) as (x & t & -> & Hx & _). exists x, t. auto.
-Qed.
-
-Lemma first_ok_rung1 a : wfb a = true -> rung1 a = true -> forall w, first_ok a (spell_surface a w).
-Proof.
-  induction a as [o a IHa b IHb|a IHa|s|s|q|f args|a IHa|p IHp preds| |st first rest];
-  intros Hwf Hr w; cbn [rung1] in Hr; try discriminate; cbn [spell_surface wfb] in *.
-  - rewrite !andb_true_iff in Hwf. destruct Hwf as [[[[Hl _] _] Hwa] _].
-    apply andb_true_iff in Hr. destruct Hr as [Hra _].
-    specialize (IHa Hwa Hra (kid w 0)). rewrite spell_bin_eq.
-    destruct (spell_surface a (kid w 0)) as [|c s]; [destruct IHa|]. cbn [app first_ok] in *.
-    destruct IHa as (H1 & H2 & H3). repeat split; try assumption.
-    intros H7. apply H3. cbn [level] in H7. apply Nat.leb_le in Hl. lia.
-  - cbn [app first_ok level]. repeat split; try discriminate. lia.
-  - unfold spell_lit. cbn [first_ok]. unfold quote_of.
-    destruct (wflag w && negb (mem 39 s)); [|destruct (mem 34 s)]; repeat split; discriminate.
-  - destruct (number_hd s Hwf) as (c & r & -> & [Hd| ->]).
-    + cbn [first_ok]. destruct (digit_facts c Hd) as (H1 & H2 & H3 & _). auto.
-    + cbn [first_ok]. repeat split; discriminate.
-  - cbn [app first_ok]. repeat split; discriminate.
-  - rewrite andb_true_iff in Hwf. destruct Hwf as [Hf _]. unfold wf_fname in Hf.
-    apply andb_true_iff in Hf. destruct Hf as [Hq _].
-    destruct (qname_hd f Hq) as (c & r & -> & Hc). cbn [app first_ok].
-    destruct (p1_facts c Hc) as (H1 & H2 & H3 & _). auto.
-  - cbn [app first_ok]. repeat split; discriminate.
 Qed.
 
 (** ** nothing of the grammar starts with a closing parenthesis *)
@@ -499,12 +444,12 @@ Qed.
 
 (** ** primaries *)
 Definition PrimOK (a : xexpr) : Prop :=
-  forall w k, ws_ok w = true -> follow 8 k -> lex_follow a k ->
+  forall w k, ws_ok w = true -> lex_follow a k ->
   exists tp p, P (NT nt_primary_expr) (spell_surface a w ++ k) tp k /\ act tp = VPrimary p /\ abs_primary p = a.
 
 Lemma top8_of_primary a : PrimOK a -> Top8 a.
 Proof.
-  intros H w k Hw Hk Hlex. destruct (H w k Hw Hk Hlex) as (tp & p & HP & Ha & Hab).
+  intros H w k Hw Hk Hlex. destruct (H w k Hw Hlex) as (tp & p & HP & Ha & Hab).
   destruct Hk as [_ [H47 H91]].
   exists (TMap L_closure_dae0d720 (TPair (TMap L_model_FilterExpr_from (TPair tp (TList []))) TNone)),
          (PFilter (EFilter p ExprNil)).
@@ -521,7 +466,7 @@ Qed.
 
 Lemma prim_var q : wf_qname q = true -> PrimOK (XVar q).
 Proof.
-  intros Hq w k Hw Hk Hlex. cbn [spell_surface]. destruct Hlex as (Hn & _). destruct (Hn eq_refl) as (Hns & _).
+  intros Hq w k Hw Hlex. cbn [spell_surface]. destruct Hlex as (Hn & _). destruct (Hn eq_refl) as (Hns & _).
   exists (TMap L_model_PrimaryExpr_from (qname_tree q)), (PrimVariable (mq q)). split; [|split].
   - apply parses_nt. rewrite prod_primary_expr. apply parses_alt_l, parses_map.
     rewrite <- app_assoc. apply P_variable; assumption.
@@ -531,7 +476,7 @@ Qed.
 
 Lemma prim_lit s : wf_lit s = true -> PrimOK (XLit s).
 Proof.
-  intros Hs w k Hw Hk Hlex. cbn [spell_surface].
+  intros Hs w k Hw Hlex. cbn [spell_surface].
   exists (TMap L_model_PrimaryExpr_from (TStr s)), (PrimLiteral s). split; [|split]; [|reflexivity|reflexivity].
   apply parses_nt. rewrite prod_primary_expr.
   destruct (quote_of_cases (wflag w) s Hs) as [Hq _].
@@ -542,7 +487,7 @@ Qed.
 
 Lemma prim_num s : is_number s = true -> PrimOK (XNum s).
 Proof.
-  intros Hs w k Hw Hk Hlex. cbn [spell_surface]. destruct Hlex as (_ & Hnum & _). specialize (Hnum s eq_refl).
+  intros Hs w k Hw Hlex. cbn [spell_surface]. destruct Hlex as (_ & Hnum & _). specialize (Hnum s eq_refl).
   exists (TMap L_model_PrimaryExpr_number (TStr s)), (PrimNumber s). split; [|split]; [|reflexivity|reflexivity].
   apply parses_nt. rewrite prod_primary_expr.
   destruct (number_hd s Hs) as (c & r & E & Hc).
@@ -559,7 +504,7 @@ Qed.
 
 Lemma prim_paren a : (forall w, first_ok a (spell_surface a w)) -> Top0 a -> PrimOK (XParen a).
 Proof.
-  intros Hf HT w k Hw Hk Hlex. cbn [spell_surface]. rewrite <- !app_assoc.
+  intros Hf HT w k Hw Hlex. cbn [spell_surface]. rewrite <- !app_assoc.
   assert (Hg0 : forallb is_ws (gap w 0) = true) by (apply ws_ok_gap, Hw).
   assert (Hg1 : forallb is_ws (gap w 1) = true) by (apply ws_ok_gap, Hw).
   destruct (HT (kid w 0) (gap w 1 ++ [41] ++ k)) as (t & e & HP & Ha & Hab).
@@ -605,7 +550,7 @@ Proof.
     destruct (HTx (kid wx 0) rest) as (t & e & HP & Ha & Hab).
     { apply ws_ok_kid, Hwx. }
     { rewrite Erest. apply follow_closer; assumption. }
-    { rewrite Erest. apply lex_follow_closer; assumption. }
+    { rewrite Erest. apply lex_follow_closer; [assumption|cbn [In] in *; tauto]. }
     exists (t :: items), (e :: es). rewrite <- !app_assoc. fold rest. split; [|split].
     + econstructor; [| |apply parses_nt; rewrite prod_argument; apply parses_nt; rewrite prod_expr; exact HP|exact Hst].
       * apply P_sepB; [apply ws_ok_gap, Hwx|apply ws_ok_gap, Hwx|reflexivity|].
@@ -658,7 +603,7 @@ Lemma prim_call f args :
   (forall x, In x args -> Top0 x /\ (forall w, first_ok x (spell_surface x w))) ->
   PrimOK (XCall f args).
 Proof.
-  intros Hf Hc Hall w k Hw Hk Hlex. cbn [spell_surface]. rewrite <- !app_assoc.
+  intros Hf Hc Hall w k Hw Hlex. cbn [spell_surface]. rewrite <- !app_assoc.
   assert (Hg0 : forallb is_ws (gap w 0) = true) by (apply ws_ok_gap, Hw).
   assert (Hg1 : forallb is_ws (gap w 1) = true) by (apply ws_ok_gap, Hw).
   assert (Hg2 : forallb is_ws (gap w 2) = true) by (apply ws_ok_gap, Hw).
@@ -709,7 +654,7 @@ Proof.
     destruct (HTx (kid wx 0) rest) as (t & e & HP & Ha & Hab).
     { apply ws_ok_kid, Hwx. }
     { rewrite Erest. apply follow_closer; assumption. }
-    { rewrite Erest. apply lex_follow_closer; assumption. }
+    { rewrite Erest. apply lex_follow_closer; [assumption|cbn [In] in *; tauto]. }
     exists (TMap L_model_PrimaryExpr_from (TMap L_model_FunctionCall_from (TPair (fname_tree f) (TList (t :: items))))),
            (PrimFunction (mq f) (exprs_of (e :: es))).
     split; [|split].
@@ -745,108 +690,3 @@ Proof.
     + cbn [abs_primary]. rewrite abs_mq, abs_exprs_of. cbn [map]. now rewrite Hab, Hmap.
 Qed.
 
-(** ** the induction *)
-Definition AllAt (a : xexpr) : Prop :=
-  (level a = 8%nat -> Top8 a) /\
-  ((7 <= level a)%nat -> Chain7 a /\ Top7 a) /\
-  ((6 <= level a)%nat -> NegChain a /\ Top6 a) /\
-  ((5 <= level a)%nat -> Chain5 a /\ Top5 a) /\
-  ((4 <= level a)%nat -> Chain4 a /\ Top4 a) /\
-  ((3 <= level a)%nat -> Chain3 a /\ Top3 a) /\
-  ((2 <= level a)%nat -> Chain2 a /\ Top2 a) /\
-  ((1 <= level a)%nat -> Chain1 a /\ Top1 a) /\
-  (Chain0 a /\ Top0 a).
-
-Lemma level_le8 a : (level a <= 8)%nat.
-Proof. destruct a as [o| | | | | | | | |]; cbn [level]; try lia. destruct o; cbn; lia. Qed.
-
-Lemma all_at : forall N a, (size a < N)%nat -> wfb a = true -> rung1 a = true -> AllAt a.
-Proof.
-  induction N as [|N IH]; intros a Hs Hwf Hr; [lia|].
-  (* operands of a binary operator *)
-  assert (Hsub : forall o l r, a = XBin o l r ->
-            AllAt l /\ AllAt r /\ (lvl o <= level l)%nat /\ (lvl o < level r)%nat /\
-            (forall w, first_ok r (spell_surface r w))).
-  { intros o l r ->. cbn [wfb rung1 size] in *. rewrite !andb_true_iff in Hwf.
-    destruct Hwf as [[[[Hl1 Hl2] _] Hwl] Hwr]. apply andb_true_iff in Hr. destruct Hr as [Hrl Hrr].
-    apply Nat.leb_le in Hl1. apply Nat.ltb_lt in Hl2.
-    split; [apply IH; [lia|assumption|assumption]|].
-    split; [apply IH; [lia|assumption|assumption]|].
-    split; [assumption|]. split; [assumption|]. apply first_ok_rung1; assumption. }
-  (* level 8 *)
-  assert (H8 : level a = 8%nat -> Top8 a).
-  { intros Hl. destruct a as [o l r|a'|s|s|q|f args|a'| | |]; cbn [level rung1] in *; try discriminate.
-    - exfalso. destruct o; cbn in Hl; lia.
-    - apply top8_of_primary, prim_lit, Hwf.
-    - apply top8_of_primary, prim_num, Hwf.
-    - apply top8_of_primary, prim_var, Hwf.
-    - cbn [wfb] in Hwf. apply andb_true_iff in Hwf. destruct Hwf as [Hf Hargs].
-      apply andb_true_iff in Hr. destruct Hr as [Hc Hrargs].
-      apply top8_of_primary, prim_call; try assumption.
-      intros x Hx. rewrite forallb_forall in Hargs, Hrargs.
-      assert (Hax : AllAt x).
-      { apply IH; [|apply Hargs, Hx|apply Hrargs, Hx]. cbn [size] in Hs. pose proof (size_in x args Hx). lia. }
-      split; [apply Hax|]. apply first_ok_rung1; [apply Hargs, Hx|apply Hrargs, Hx].
-    - cbn [wfb size] in *.
-      assert (Hax : AllAt a') by (apply IH; [lia|assumption|assumption]).
-      apply top8_of_primary, prim_paren; [apply first_ok_rung1; assumption|apply Hax]. }
-  assert (H7 : (7 <= level a)%nat -> Chain7 a /\ Top7 a).
-  { apply level7; [exact Hwf| |intros; apply H8; pose proof (level_le8 a); lia].
-    intros o l r E Ho. destruct (Hsub o l r E) as (Al & Ar & L1 & L2 & Hf).
-    split; [apply Al; lia|]. split; [|exact Hf]. apply Ar. pose proof (level_le8 r). lia. }
-  assert (H6 : (6 <= level a)%nat -> NegChain a /\ Top6 a).
-  { intros Hl. assert (HC : NegChain a).
-    { destruct a as [o l r|a'|s|s|q|f args|a'|p preds| |st fs rs]; cbn [rung1] in Hr; try discriminate;
-      try (apply negchain_base; [cbn; lia|apply first_ok_rung1; assumption|apply H7; cbn; lia]).
-      - apply negchain_base; [cbn [level] in *; destruct o; cbn in *; lia|apply first_ok_rung1; assumption|].
-        apply H7. cbn [level] in *; destruct o; cbn in *; lia.
-      - cbn [wfb size] in *. apply andb_true_iff in Hwf. destruct Hwf as [Hl6 Hwa]. apply Nat.leb_le in Hl6.
-        assert (Hax : AllAt a') by (apply IH; [lia|assumption|assumption]).
-        apply negchain_step; [apply first_ok_rung1; assumption|]. apply Hax. exact Hl6. }
-    split; [exact HC|apply top6_of_negchain, HC]. }
-  assert (H5 : (5 <= level a)%nat -> Chain5 a /\ Top5 a).
-  { apply level5; [exact Hwf| |intros; apply H6; assumption].
-    intros o l r E Ho. destruct (Hsub o l r E) as (Al & Ar & L1 & L2 & Hf).
-    split; [apply Al; lia|]. split; [|exact Hf]. apply Ar. lia. }
-  assert (H4 : (4 <= level a)%nat -> Chain4 a /\ Top4 a).
-  { apply level4; [exact Hwf| |intros; apply H5; assumption].
-    intros o l r E Ho. destruct (Hsub o l r E) as (Al & Ar & L1 & L2 & Hf).
-    split; [apply Al; lia|]. split; [|exact Hf]. apply Ar. lia. }
-  assert (H3 : (3 <= level a)%nat -> Chain3 a /\ Top3 a).
-  { apply level3; [exact Hwf| |intros; apply H4; assumption].
-    intros o l r E Ho. destruct (Hsub o l r E) as (Al & Ar & L1 & L2 & Hf).
-    split; [apply Al; lia|]. split; [|exact Hf]. apply Ar. lia. }
-  assert (H2 : (2 <= level a)%nat -> Chain2 a /\ Top2 a).
-  { apply level2; [exact Hwf| |intros; apply H3; assumption].
-    intros o l r E Ho. destruct (Hsub o l r E) as (Al & Ar & L1 & L2 & Hf).
-    split; [apply Al; lia|]. split; [|exact Hf]. apply Ar. lia. }
-  assert (H1 : (1 <= level a)%nat -> Chain1 a /\ Top1 a).
-  { apply level1; [exact Hwf| |intros; apply H2; assumption].
-    intros o l r E Ho. destruct (Hsub o l r E) as (Al & Ar & L1 & L2 & Hf).
-    split; [apply Al; lia|]. split; [|exact Hf]. apply Ar. lia. }
-  assert (H0 : Chain0 a /\ Top0 a).
-  { apply level0; [exact Hwf| |intros; apply H1; assumption|lia].
-    intros o l r E Ho. destruct (Hsub o l r E) as (Al & Ar & L1 & L2 & Hf).
-    split; [apply Al|]. split; [|exact Hf]. apply Ar. lia. }
-  repeat split; try tauto.
-Qed.
-
-(** the termination certificate of the regenerated XPath grammar, checked by computation (the same
-    check as Proofs/GrammarTermination.v, repeated here so that this file does not depend on the
-    XML grammar) *)
-Lemma G_xpath_cert_c08 : cert_okb G_xpath G_xpath_nulls G_xpath_ranks G_xpath_R = true.
-Proof. vm_compute. reflexivity. Qed.
-
-(** ** the round trip for [parse_expr] *)
-Theorem parse_spell_surface_rung1 a w :
-  wfb a = true -> rung1 a = true -> ws_ok w = true ->
-  exists e, parse_expr (spell_surface a w) = POk e [] /\ abs_or e = a.
-Proof.
-  intros Hwf Hr Hw. destruct (all_at (S (size a)) a (Nat.lt_succ_diag_r _) Hwf Hr) as (_ & _ & _ & _ & _ & _ & _ & _ & _ & HT).
-  destruct (HT w [] Hw (follow_nil 0) (lex_follow_nil a)) as (t & e & HP & Ha & Hab).
-  exists e. split; [|exact Hab]. unfold parse_expr, run_expr.
-  rewrite app_nil_r in HP.
-  assert (HP' : P (NT nt_expr) (spell_surface a w) t []) by (apply parses_nt; rewrite prod_expr; exact HP).
-  rewrite (parses_run G_xpath G_xpath_nulls G_xpath_ranks G_xpath_R nt_expr _ _ _ G_xpath_cert_c08 HP').
-  now rewrite Ha.
-Qed.
